@@ -264,11 +264,25 @@ func run(c *fw.Case) {
 		acts = append(acts, fmt.Sprintf("%s/%d:%s", p.iface, p.day, p.act))
 		c.Count("days_"+string(p.act), 0)
 	}
+	// crash points: every file-system event; in the quick tier the bulk of look-alike events (data
+	// I/O on files inside the staging directory, which no reader can see) is thinned to every 3rd one,
+	// everything that touches the visible tree (renames, backups, directories, metadata) is kept
 	var points []int
+	bulk := 0
 	for i, e := range cnt.Events {
-		if e.Sys != "marker" {
-			points = append(points, i)
+		if e.Sys == "marker" {
+			continue
 		}
+		if c.Tier != "thorough" && classOf(e) == "stage" {
+			switch e.Sys {
+			case "write", "lseek", "read", "pread64", "pwrite64", "fstat", "close", "openat":
+				bulk++
+				if bulk%3 != 0 {
+					continue
+				}
+			}
+		}
+		points = append(points, i)
 	}
 	if slot == 0 {
 		for _, p := range plan {
